@@ -134,21 +134,41 @@ func runC10(c *core.Ctx) {
 		{"AppDB.SetLastBlockHash", func(s *core.Site) bool { return s.Callee == "(*coreV2/appdb.AppDB).SetLastBlockHash" }},
 		{"AppDB.SetLastHeight", func(s *core.Site) bool { return s.Callee == "(*coreV2/appdb.AppDB).SetLastHeight" }},
 	}
-	var sites []*core.Site
+	// a step is a call in Commit itself or in a helper that only Commit calls; in the second case
+	// the helper's call site stands for the step when it is ordered against steps elsewhere
+	var sites, reps []*core.Site
 	for _, st := range steps {
 		s := firstCall(commit, st.match)
+		rep := s
+		if s == nil {
+			for _, h := range c.Helpers(commit) {
+				if hs := firstCall(h, st.match); hs != nil && s == nil {
+					h := h
+					if r := firstCall(commit, func(x *core.Site) bool { return x.Common.StaticCallee() == h }); r != nil {
+						s, rep = hs, r
+					}
+				}
+			}
+		}
 		if s == nil {
 			c.Bad("C10.order", "Commit/"+st.name, commit.Pos(), "Blockchain.Commit no longer calls "+st.name)
 		}
 		sites = append(sites, s)
+		reps = append(reps, rep)
+	}
+	before := func(a, b *core.Site) bool {
+		return core.Dominates(a.Instr, b.Instr) && !core.ReachFrom(b.Block(), nil)[a.Block()] || (a.Block() == b.Block() && core.InstrIndex(a.Instr) < core.InstrIndex(b.Instr))
 	}
 	for i := 0; i+1 < len(steps); i++ {
 		a, b := sites[i], sites[i+1]
 		if a == nil || b == nil {
 			continue
 		}
+		if a.Fn != b.Fn {
+			a, b = reps[i], reps[i+1]
+		}
 		key := fmt.Sprintf("Commit/%s≺%s", steps[i].name, steps[i+1].name)
-		c.Check(core.Dominates(a.Instr, b.Instr) && !core.ReachFrom(b.Block(), nil)[a.Block()] || (a.Block() == b.Block() && core.InstrIndex(a.Instr) < core.InstrIndex(b.Instr)),
+		c.Check(before(a, b),
 			"C10.order", key, b.Pos(),
 			steps[i].name+" is executed before "+steps[i+1].name+" on every path",
 			steps[i+1].name+" can execute before "+steps[i].name+": a crash between them leaves the later marker ahead of the earlier data")
@@ -156,7 +176,7 @@ func runC10(c *core.Ctx) {
 	// provenance of the stored pair
 	if sites[2] != nil && sites[3] != nil {
 		okHash := false
-		for _, o := range core.Origins(sites[3].Arg(0)) {
+		for _, o := range core.Origins(c.CallerArg(sites[3].Arg(0))) {
 			if ex, ok := o.(*ssa.Extract); ok && ex.Tuple == sites[2].Value() && ex.Index == 0 {
 				okHash = true
 			}
@@ -164,7 +184,7 @@ func runC10(c *core.Ctx) {
 		c.Check(okHash, "C10.order", "Commit/hash-provenance", sites[3].Pos(), "the hash persisted is the one State.Commit returned", "SetLastBlockHash is given something other than State.Commit's hash: "+core.Path(sites[3].Arg(0)))
 	}
 	if sites[4] != nil {
-		p := core.Path(sites[4].Arg(0))
+		p := core.Path(c.CallerArg(sites[4].Arg(0)))
 		c.Check(strings.HasSuffix(p, ".Height()"), "C10.order", "Commit/height-provenance", sites[4].Pos(), "the height persisted is blockchain.Height()", "SetLastHeight is given something other than blockchain.Height(): "+p)
 	}
 	// every early return of Commit before the marker must not have written the hash: not needed.
@@ -289,28 +309,44 @@ func runC10(c *core.Ctx) {
 			}
 		}
 		marker := sites[4]
-		after := core.ReachFrom(marker.Block(), nil)
 		n := 0
-		for _, s := range core.Sites(commit) {
-			if !writers[s.Callee] || s.Instr == marker.Instr {
-				continue
+		// writes that follow the marker: in the function that holds the marker (Commit, or the helper
+		// of Commit the persist block was moved to) and, in the second case, in Commit after the
+		// helper's call
+		type anchor struct {
+			at *core.Site
+			in *ssa.Function
+		}
+		anchors := []anchor{{marker, marker.Fn}}
+		if marker.Fn != commit && reps[4] != nil {
+			anchors = append(anchors, anchor{reps[4], commit})
+		}
+		for _, an := range anchors {
+			after := core.ReachFrom(an.at.Block(), nil)
+			for _, s := range core.Sites(an.in) {
+				if !writers[s.Callee] || s.Instr == an.at.Instr {
+					continue
+				}
+				isAfter := (s.Block() == an.at.Block() && core.InstrIndex(s.Instr) > core.InstrIndex(an.at.Instr)) || (s.Block() != an.at.Block() && after[s.Block()])
+				if !isAfter {
+					continue
+				}
+				n++
+				short := s.Callee[strings.LastIndex(s.Callee, ".")+1:]
+				c.Bad("C10.atomic", "Commit/after-marker/"+short, s.Pos(),
+					"durable write "+short+" happens after the height marker SetLastHeight and not atomically with it: a crash in between makes the node report the block as committed (Tendermint will not replay it) while this block-dependent record keeps its old value")
 			}
-			isAfter := (s.Block() == marker.Block() && core.InstrIndex(s.Instr) > core.InstrIndex(marker.Instr)) || (s.Block() != marker.Block() && after[s.Block()])
-			if !isAfter {
-				continue
-			}
-			n++
-			short := s.Callee[strings.LastIndex(s.Callee, ".")+1:]
-			c.Bad("C10.atomic", "Commit/after-marker/"+short, s.Pos(),
-				"durable write "+short+" happens after the height marker SetLastHeight and not atomically with it: a crash in between makes the node report the block as committed (Tendermint will not replay it) while this block-dependent record keeps its old value")
 		}
 		// writes before the marker other than the hash: cumulative records written early would be
 		// double-applied on replay
-		for _, s := range core.Sites(commit) {
-			if !writers[s.Callee] || s.Instr == marker.Instr || (sites[3] != nil && s.Instr == sites[3].Instr) {
-				continue
-			}
-			if core.Dominates(s.Instr, marker.Instr) {
+		for _, an := range anchors {
+			for _, s := range core.Sites(an.in) {
+				if !writers[s.Callee] || s.Instr == marker.Instr || (sites[3] != nil && s.Instr == sites[3].Instr) {
+					continue
+				}
+				if !core.Dominates(s.Instr, an.at.Instr) {
+					continue
+				}
 				c.Bad("C10.atomic", "Commit/before-marker/"+s.Callee, s.Pos(), "an app-DB record is written before the height marker; on replay of the block it would be applied twice")
 			}
 		}
